@@ -110,56 +110,45 @@ Proof.
   rewrite shl_m1_bit by lia. f_equal. lia.
 Qed.
 
-Lemma bitwise_fold_lp_ok : forall (A : Type) (kons : bool -> A -> A) (m fuel : nat) i acc,
-  0 <= i -> Z.to_nat (bitlen i) = m -> (m < fuel)%nat ->
-  s_bitwise_fold_lp fuel kons i acc = Some (fold_left (fun acc b => kons b acc) (bits_upto i m) acc).
+(** the loop of bitwise-fold (after fixes/C17-bitwise-fold-negative.patch: it counts n = 0 .. integer-length i, so the sign of i
+    does not matter) *)
+Lemma bitwise_fold_lp_ok : forall (A : Type) (kons : bool -> A -> A) len (m fuel : nat) i n acc,
+  len - n = Z.of_nat m -> (m < fuel)%nat ->
+  s_bitwise_fold_lp fuel kons len i n acc = Some (fold_left (fun acc b => kons b acc) (bits_upto i m) acc).
 Proof.
-  intros A kons. induction m as [|m IH]; intros fuel i acc Hi Hm Hf;
-    (destruct fuel as [|fuel]; [lia|]); cbn [s_bitwise_fold_lp]; unfold sb_zero_p.
-  - assert (i = 0) as ->.
-    { destruct (Z.eq_dec i 0) as [|Hne]; [assumption|]. rewrite bitlen_step in Hm by lia.
-      pose proof (bitlen_nonneg (i / 2)). lia. }
-    reflexivity.
-  - assert (0 < i) as Hp.
-    { destruct (Z.eq_dec i 0) as [->|]; [discriminate Hm|lia]. }
-    replace (i =? 0) with false by (symmetry; apply Z.eqb_neq; lia).
-    rewrite bits_upto_S. cbn [fold_left]. apply IH.
-    + apply Z.shiftl_nonneg. lia.
-    + rewrite shl_m1_div2. rewrite bitlen_step in Hm by lia. pose proof (bitlen_nonneg (i / 2)). lia.
-    + lia.
+  intros A kons len. induction m as [|m IH]; intros fuel i n acc Hm Hf;
+    (destruct fuel as [|fuel]; [lia|]); cbn [s_bitwise_fold_lp].
+  - destruct (Z.geb_spec n len); [reflexivity|lia].
+  - destruct (Z.geb_spec n len); [lia|].
+    rewrite bits_upto_S. cbn [fold_left]. apply IH; lia.
 Qed.
 
-Theorem bitwise_fold_ok : forall (A : Type) (kons : bool -> A -> A) knil i fuel, 0 <= i ->
+Lemma integer_length_spec_nonneg i : 0 <= integer_length_spec i.
+Proof. unfold integer_length_spec. apply bitlen_nonneg. Qed.
+
+Theorem bitwise_fold_ok : forall (A : Type) (kons : bool -> A -> A) knil i fuel,
   (Z.to_nat (integer_length_spec i) < fuel)%nat ->
   s_bitwise_fold fuel kons knil i =
   Some (fold_left (fun acc b => kons b acc)
          (map (fun k => Z.testbit i (Z.of_nat k)) (seq 0 (Z.to_nat (integer_length_spec i)))) knil).
 Proof.
-  intros A kons knil i fuel Hi Hf. unfold s_bitwise_fold. rewrite il_nonneg in * by assumption.
-  apply bitwise_fold_lp_ok; [assumption|reflexivity|assumption].
+  intros A kons knil i fuel Hf. unfold s_bitwise_fold. cbv zeta.
+  apply bitwise_fold_lp_ok; [|assumption].
+  pose proof (integer_length_spec_nonneg i). rewrite Z2Nat.id by assumption. lia.
 Qed.
 
-Theorem bitwise_fold_negative_diverges : forall (A : Type) (kons : bool -> A -> A) knil i fuel, i < 0 ->
-  s_bitwise_fold fuel kons knil i = None.
-Proof.
-  intros A kons knil i fuel. unfold s_bitwise_fold. revert i knil.
-  induction fuel as [|fuel IH]; intros i acc Hi; cbn [s_bitwise_fold_lp]; [reflexivity|].
-  unfold sb_zero_p. replace (i =? 0) with false by (symmetry; apply Z.eqb_neq; lia).
-  apply IH. apply Z.shiftl_neg. assumption.
-Qed.
-
-Theorem bitwise_for_each_ok : forall proc i fuel, 0 <= i -> (Z.to_nat (integer_length_spec i) < fuel)%nat ->
+Theorem bitwise_for_each_ok : forall proc i fuel, (Z.to_nat (integer_length_spec i) < fuel)%nat ->
   s_bitwise_for_each fuel proc i =
   Some (fold_left (fun acc b => proc b)
          (map (fun k => Z.testbit i (Z.of_nat k)) (seq 0 (Z.to_nat (integer_length_spec i)))) false).
 Proof.
-  intros proc i fuel Hi Hf. unfold s_bitwise_for_each.
-  apply (bitwise_fold_ok bool (fun b _ => proc b) false i fuel Hi Hf).
+  intros proc i fuel Hf. unfold s_bitwise_for_each.
+  apply (bitwise_fold_ok bool (fun b _ => proc b) false i fuel Hf).
 Qed.
 
 Example bitwise_fold_witness : s_bitwise_fold 10 cons [] 6 = Some [true; true; false].
 Proof. vm_compute. reflexivity. Qed.
-Example bitwise_fold_negative_witness : s_bitwise_fold 1000 cons [] (-6) = None.
+Example bitwise_fold_negative_witness : s_bitwise_fold 10 cons [] (-6) = Some [false; true; false].
 Proof. vm_compute. reflexivity. Qed.
 Example bitwise_for_each_witness : s_bitwise_for_each 10 negb 5 = Some false.
 Proof. vm_compute. reflexivity. Qed.
